@@ -106,6 +106,12 @@ func init() {
 			}
 			return m.unsym(m.st.Or(alts...), types.Bool)
 		},
+		"vIntText": func(m *Machine, fr *frame, fn *ssa.Function, a []value) value {
+			return numLit{isFloat: false, T: m.term(a[0])}
+		},
+		"vFloatText": func(m *Machine, fr *frame, fn *ssa.Function, a []value) value {
+			return numLit{isFloat: true, T: m.term(a[0])}
+		},
 		"vIsNative": func(m *Machine, fr *frame, fn *ssa.Function, a []value) value { return false },
 		"vSetTokens": func(m *Machine, fr *frame, fn *ssa.Function, a []value) value {
 			var toks []string
